@@ -107,6 +107,13 @@ class ScriptRunner:
         except Deadlock as dl:
             r = 'deadlock'
             self.last = Outcome('deadlock', msg=str(dl))
+        except KeyError as ke:
+            if ke.args and ke.args[0] in t:
+                # a script variable that an earlier (failed / panicked) line never defined
+                r = 'novar:%s' % ke.args[0]
+                self.last = Outcome('err', kind='NoSuchVariable')
+            else:
+                raise
         self.log.append((line, r))
         return r
 
